@@ -9,11 +9,12 @@ import Driver.OpsIntCodec
 import Driver.OpsPath
 import Driver.OpsFs
 import Driver.OpsArgs
+import Driver.OpsHeader
 
 open Fh Fh.Driver
 
 def handlers : List (String → List Bytes → Option String) :=
-  [opsByteClass, opsIntCodec, opsPath, opsFs, opsArgs]
+  [opsByteClass, opsIntCodec, opsPath, opsFs, opsArgs, opsHeader]
 
 def dispatch (line : String) : String :=
   match (line.splitOn " ").filter (· ≠ "") with
